@@ -632,6 +632,99 @@ def stage_foreign_specials(ctx: Ctx):
                             ctx.violation('reconcile-struct|foreign-special', 'the reconciled tree is not the edited AST (or its source does not parse to it)', {**rec, 'out_src': out.src, 'diffs': d})
 
 
+RHDR = ('From Coq Require Import List Bool Arith.\nFrom PF Require Import models.SliceReplay.\nImport ListNotations.\n'
+        'Definition op_eqb (a b : op) : bool := match a, b with PutSlice s e, PutSlice s2 e2 => Nat.eqb s s2 && Nat.eqb e e2 | InsertOne i, InsertOne j => Nat.eqb i j '
+        '| DelTail s, DelTail s2 => Nat.eqb s s2 | Recurse i, Recurse j => Nat.eqb i j | _, _ => false end.\n'
+        "Fixpoint ops_eqb (a b : list op) : bool := match a, b with [], [] => true | x :: a', y :: b' => op_eqb x y && ops_eqb a' b' | _, _ => false end.\n"
+        "Fixpoint nl_eqb (a b : list nat) : bool := match a, b with [], [] => true | x :: a', y :: b' => Nat.eqb x y && nl_eqb a' b' | _, _ => false end.\n"
+        'Definition visible (o : op) : bool := match o with Recurse _ => false | _ => true end.\n')
+
+
+def stage_slice_replay(ctx: Ctx):
+    """models/SliceReplay.v recurse_slice == the slice operations real reconcile() performs on an edited list: elements kept, moved (alone and as runs), deleted, taken from
+    another list of the marked tree, and new pure nodes; the put_slice calls on the list are recorded and compared with the model's operations (recursion steps left out)"""
+    import fst
+    import itertools
+    rng = ctx.rng
+    src = 'x = [e0, e1, e2, e3, e4]\ny = [f0, f1, f2]\n'
+    terms, meta = [], []
+    cases = []
+    # deterministic small edits + random ones
+    base = list(range(5))
+    for perm in itertools.permutations(range(3)):
+        cases.append([('own', i) for i in perm] + [('own', 3), ('own', 4)])
+    for k in range(6):
+        cases.append([('own', i) for i in base[:k]])                    # truncations
+        cases.append([('own', i) for i in base[k:]])                    # heads dropped
+        cases.append([('own', i) for i in base[:k]] + [('new', 0)] + [('own', i) for i in base[k:]])
+        cases.append([('own', i) for i in base[:k]] + [('other', 0), ('other', 1)] + [('own', i) for i in base[k:]])
+    cases += [[('own', 2), ('own', 3), ('own', 0), ('own', 1)], [('own', 3), ('own', 4), ('new', 0), ('own', 0)], [('other', 1), ('other', 2), ('own', 0)], [('new', 0), ('new', 1)], [],
+              [('own', 0), ('own', 1), ('own', 2), ('own', 3), ('own', 4), ('new', 0), ('other', 0)], [('own', 4), ('own', 3), ('own', 2), ('own', 1), ('own', 0)]]
+    for _ in range(ctx.scale(60, 600)):
+        n = rng.randrange(0, 8)
+        cases.append([rng.choice([('own', rng.randrange(5)), ('own', rng.randrange(5)), ('other', rng.randrange(3)), ('new', rng.randrange(3))]) for _ in range(n)])
+    seen = set()
+    for case in cases:
+        # an AST object can stand at one place only
+        if len(set(case)) != len(case) or tuple(case) in seen:
+            continue
+        seen.add(tuple(case))
+        root = fst.FST(src, 'exec')
+        root.mark()
+        lst = root.a.body[0].value
+        own_nodes = list(lst.elts)
+        other_nodes = list(root.a.body[1].value.elts)
+        new_nodes = [ast.Name(id=f'n{k}', ctx=ast.Load()) for k in range(3)]
+        pick = {'own': own_nodes, 'other': other_nodes, 'new': new_nodes}
+        body = [pick[k][i] for k, i in case]
+        nodef = lst.f
+        elems = []
+        for (k, i), n in zip(case, body):
+            f = getattr(n, 'f', None)
+            if f is not None and f.parent is not None and f.pfield.idx is not None:
+                own = f.pfield.name == 'elts' and f.parent is nodef
+                elems.append(f'{{| eid := {dict(own=0, other=100, new=200)[k] + i}; src := Some ({0 if own else 1}, {f.pfield.idx}); own := {cbool(own)}; compat := true |}}')
+            else:
+                elems.append(f'{{| eid := {200 + i}; src := None; own := false; compat := false |}}')
+        lst.elts[:] = body
+        log = []
+        orig = fst.FST.put_slice
+
+        def spy(self, code=None, start=None, stop=None, field=None, *a, **kw):
+            if field == 'elts' and isinstance(self.a, ast.List) and len(self.a.elts) >= 0 and self.parent is not None and isinstance(self.parent.a, ast.Assign) and self.parent.pfield.idx == 0:
+                n_now = len(self.a.elts)
+                if code is None:
+                    log.append(f'DelTail {start}')
+                elif kw.get('one'):
+                    log.append(f'InsertOne {start}')
+                else:
+                    log.append(f'PutSlice {start} {stop}')
+            return orig(self, code, start, stop, field, *a, **kw)
+        fst.FST.put_slice = spy
+        try:
+            out = root.reconcile()
+            err = None
+        except Exception as e:
+            err = e
+        finally:
+            fst.FST.put_slice = orig
+        rec = {'marked': src, 'edited_list': [f'{k}{i}' for k, i in case]}
+        if err is not None:
+            ctx.violation(f'reconcile-raise|{type(err).__name__}|slice-replay', 'reconcile() raised on an edited list', {**rec, 'error': repr(err)[:200]})
+            continue
+        ctx.tick(('slice-replay', tuple(case)), 'reconcile:slice-replay')
+        got_names = [e.id for e in out.a.body[0].value.elts]
+        want_names = [{'own': f'e{i}', 'other': f'f{i}', 'new': f'n{i}'}[k] for k, i in case]
+        if got_names != want_names:
+            ctx.violation('reconcile-struct|slice-replay', 'the reconciled list is not the edited list', {**rec, 'got': got_names})
+            continue
+        ops = '[' + '; '.join(log) + ']'
+        terms.append(f'let r := recurse_slice [{"; ".join(elems)}] [0; 1; 2; 3; 4] in nl_eqb (fst r) [{"; ".join(str(dict(own=0, other=100, new=200)[k] + i) for k, i in case)}] && ops_eqb (filter visible (snd r)) {ops}')
+        meta.append({**rec, 'real_operations': log})
+    failed = coq_eval_bools('C13_slicereplay', RHDR, terms, shard=80)
+    ctx.correspondence('models/SliceReplay.v recurse_slice (operations without the recursion steps) == the put_slice calls real reconcile() makes on the edited list', len(terms), [meta[i] for i in failed])
+
+
 def stage_dict_and_try(ctx: Ctx):
     """deterministic: (a) Dict keys / values re-paired (values permuted under fixed keys, keys permuted, pairs swapped / deleted / duplicated) with keys that differ by more
     than a primitive and with `**` entries; (b) the number of except handlers / finally statements of a try changed (append / insert / delete / duplicate) while the other
@@ -884,6 +977,7 @@ def run(ctx: Ctx):
     run_guarded(ctx, stage_prim_fields)
     run_guarded(ctx, stage_foreign_runs)
     run_guarded(ctx, stage_foreign_specials)
+    run_guarded(ctx, stage_slice_replay)
     run_guarded(ctx, stage_dict_and_try)
     run_guarded(ctx, stage_corr, progs)
 
